@@ -65,12 +65,15 @@ def _one(rec: dict) -> dict:
         from zorg.service import swog
         db_url = "sqlite:///" + str(env.db_path)
         zenv.reset_process_state()
+        out = None
         try:
             out = swog.execute(env.zdir, db_url, QUERY)
+        except Exception as e:  # noqa: BLE001 - an escaping exception is an observation
+            res["problems"].append(("query", f"swog.execute({QUERY!r}) raised {e!r}", ""))
         finally:
             zenv.reset_process_state()
         texts = [n["text"].rstrip() for n in rec["notes"]]
-        bad = _match_entries(out, texts)
+        bad = _match_entries(out, texts) if out is not None else None
         if bad:
             res["problems"].append(("query", bad, out))
         # saved-query page
